@@ -42,4 +42,82 @@ theorem t_db2_concat (s t : K) (a b : K) (u w : V2 K) :
 theorem t_db2_to_matrix (s a : K) (u : V2 K) :
     t_db2_to_matrix (envL ([s, a] ++ u.toList)) =
       .okS (Decomposed.toM3 basis2Ops (⟨s, ⟨M2.fromAngle a⟩, u⟩ : DB2 K)).toList := by tr_auto
+
+/-! matrices as transforms: `concat` is the product in this order; `inverse_transform` is `invert`
+(one comparison, `det == 0`) -/
+theorem t_m3_concat2 (a b : M3 K) : t_m3_concat2 (envL (a.toList ++ b.toList)) = .okS (a * b).toList := by tr_auto
+theorem t_m3_concat (a b : M3 K) : t_m3_concat (envL (a.toList ++ b.toList)) = .okS (a * b).toList := by tr_auto
+theorem t_m4_concat (a b : M4 K) : t_m4_concat (envL (a.toList ++ b.toList)) = .okS (a * b).toList := by tr_auto
+theorem t_m3_concat_self2 (a b : M3 K) : t_m3_concat_self2 (envL (a.toList ++ b.toList)) = .okS (a * b).toList := by tr_auto
+theorem t_m4_concat_self (a b : M4 K) : t_m4_concat_self (envL (a.toList ++ b.toList)) = .okS (a * b).toList := by tr_auto
+theorem t_dq_concat_self (d e : DQ K) :
+    t_dq_concat_self (envL (flq d ++ flq e)) = .okS (flq (Decomposed.concat quatOps d e)) := by tr_auto
+theorem t_dq_mul (d e : DQ K) :
+    t_dq_mul (envL (flq d ++ flq e)) = .okS (flq (Decomposed.concat quatOps d e)) := by tr_auto
+theorem t_dq_inverse_transform_vector (d : DQ K) (u : V3 K) (h : ulpsEqD d.scale 0 = false) :
+    (match Decomposed.inverseTransformVector quatOps d u with
+      | .ok r => t_dq_inverse_transform_vector (envL (flq d ++ u.toList)) = .okG r.toList [.ulps d.scale 0 eps52 4 false]
+      | _ => False) := by
+  simp only [Decomposed.inverseTransformVector, h]
+  simp [eps52]; tr_auto
+theorem t_m3_inverse_transform2_some (a : M3 K) (h : a.det ≠ 0) :
+    t_m3_inverse_transform2_some (envL a.toList) = .okG ((a.inverseTransform.map M3.toList).getD []) [.eq a.det 0 false] := by
+  have h' := h
+  simp only [M3.det] at h'
+  simp [envL, Tr.okG, M3.toList, V3.toList, M3.inverseTransform, M3.invert, h']
+  tr_fin
+theorem t_m3_inverse_transform_some (a : M3 K) (h : a.det ≠ 0) :
+    t_m3_inverse_transform_some (envL a.toList) = .okG ((a.inverseTransform.map M3.toList).getD []) [.eq a.det 0 false] := by
+  have h' := h
+  simp only [M3.det] at h'
+  simp [envL, Tr.okG, M3.toList, V3.toList, M3.inverseTransform, M3.invert, h']
+  tr_fin
+theorem t_m4_inverse_transform_some (a : M4 K) (h : a.det ≠ 0) :
+    t_m4_inverse_transform_some (envL a.toList) = .okG ((a.inverseTransform.map M4.toList).getD []) [.eq a.det 0 false] := by
+  have hi : a.invert = some (M4.new (M4.cf a.transpose (1 / a.det) 0 0) (M4.cf a.transpose (1 / a.det) 0 1)
+      (M4.cf a.transpose (1 / a.det) 0 2) (M4.cf a.transpose (1 / a.det) 0 3)
+      (M4.cf a.transpose (1 / a.det) 1 0) (M4.cf a.transpose (1 / a.det) 1 1)
+      (M4.cf a.transpose (1 / a.det) 1 2) (M4.cf a.transpose (1 / a.det) 1 3)
+      (M4.cf a.transpose (1 / a.det) 2 0) (M4.cf a.transpose (1 / a.det) 2 1)
+      (M4.cf a.transpose (1 / a.det) 2 2) (M4.cf a.transpose (1 / a.det) 2 3)
+      (M4.cf a.transpose (1 / a.det) 3 0) (M4.cf a.transpose (1 / a.det) 3 1)
+      (M4.cf a.transpose (1 / a.det) 3 2) (M4.cf a.transpose (1 / a.det) 3 3)) := by
+    simp only [M4.invert, if_neg h]
+  rw [M4.inverseTransform, hi]
+  simp [envL, Tr.okG, M4.toList, V4.toList, M4.cf, M4.det, M4.detSubProc]
+  tr_fin
+theorem t_m3_transform_point2 (a : M3 K) (p : P2 K) :
+    t_m3_transform_point2 (envL (a.toList ++ p.toList)) = .okS (a.transformPoint2 p).toList := by tr_auto
+theorem t_m3_transform_vector2 (a : M3 K) (u : V2 K) :
+    t_m3_transform_vector2 (envL (a.toList ++ u.toList)) = .okS (a.transformVector2 u).toList := by tr_auto
+theorem t_m4_transform_point (a : M4 K) (p : P3 K) :
+    t_m4_transform_point (envL (a.toList ++ p.toList)) = .okS (a.transformPoint p).toList := by tr_auto
+theorem t_m4_transform_vector (a : M4 K) (u : V3 K) :
+    t_m4_transform_vector (envL (a.toList ++ u.toList)) = .okS (a.transformVector u).toList := by tr_auto
+
+/-! `Decomposed::look_at_{lh,rh}` with a quaternion rotation, on the path the shadow input takes through
+`From<Matrix3> for Quaternion`: the displacement is the rotated `origin - eye`, the direction is
+`center - eye` (lh) resp. `eye - center` (rh) -/
+attribute [local simp] Decomposed.lookAtDir Quat.lookAt M3.lookToLh V3.normalize V3.normalizeTo V3.magnitude
+theorem t_dq_look_at_lh (e c : P3 K) (u : V3 K) (h : 0 ≤ (M3.lookToLh (c - e) u).trace) :
+    t_dq_look_at_lh (envL (e.toList ++ c.toList ++ u.toList)) =
+      .okG (flq (Decomposed.lookAtDir quatOps (c - e) u V3.zero e.toVec))
+        [.le 0 (M3.lookToLh (c - e) u).trace true] := by
+  have h' := h
+  simp only [Decomposed.lookAtDir, quatOps, Quat.lookAt]
+  unfold M3.toQuat
+  simp only [if_pos h']
+  tr_auto_nf
+theorem t_dq_look_at_rh (e c : P3 K) (u : V3 K) (h : ¬ 0 ≤ (M3.lookToLh (e - c) u).trace)
+    (h1 : ¬ (M3.lookToLh (e - c) u).y.y < (M3.lookToLh (e - c) u).x.x)
+    (h2 : (M3.lookToLh (e - c) u).z.z < (M3.lookToLh (e - c) u).y.y) :
+    t_dq_look_at_rh (envL (e.toList ++ c.toList ++ u.toList)) =
+      .okG (flq (Decomposed.lookAtDir quatOps (e - c) u V3.zero e.toVec))
+        [.le 0 (M3.lookToLh (e - c) u).trace false,
+         .lt (M3.lookToLh (e - c) u).y.y (M3.lookToLh (e - c) u).x.x false,
+         .lt (M3.lookToLh (e - c) u).z.z (M3.lookToLh (e - c) u).y.y true] := by
+  simp only [Decomposed.lookAtDir, quatOps, Quat.lookAt]
+  unfold M3.toQuat
+  simp only [if_neg h, h1, h2, false_and, if_false, if_true]
+  tr_auto_nf
 end Cg.Trace.C08
